@@ -385,7 +385,7 @@ def shapes(maxpay=1500):
     "ipv6-icmp6-timex": _cat(l2(), ipv6(), st.integers(0, 1).map(lambda c: {"t": "icmp6", "type": 3, "code": c}), st.just({"t": "timex6"}), raw(0, min(maxpay, 1200))),
     "ipv6-icmp6-unreach": _cat(l2(), ipv6(), st.integers(0, 7).map(lambda c: {"t": "icmp6", "type": 1, "code": c}),
                                u(32).map(lambda m: {"t": "unreach6", "unused": m}),
-                               st.one_of(raw(0, 43).map(lambda r: [r]), _cat(ipv6(ext=st.just([])), udp(), raw(0, 32)))),
+                               st.one_of(raw(0, 39).map(lambda r: [r]), _cat(ipv6(ext=st.just([])), udp(), raw(0, 32)))),
     "ipv6-icmp6-other": _cat(l2(), ipv6(), st.tuples(icmp6_other, u(8)).map(lambda t: {"t": "icmp6", "type": t[0], "code": t[1]}), R()),
     "lldp": _cat(eth(), st.one_of(st.just([]), vlan().map(lambda v: [v])), lldp()),
     "mpls": _cat(eth(), st.one_of(st.just([]), vlan().map(lambda v: [v])), mpls_stack(), R()),
